@@ -20,6 +20,6 @@ fi
 cd /verif
 for P in "$@"; do
   echo "== check $P (quick) against the change"
-  VERIF_REPO_ROOT="$W" VERIF_EVIDENCE_DIR="$W/evidence" python3 tools/check.py "$P" --tier quick 2>&1 | grep -E "^VIOLATION|signature:|detail:|quick:|HARNESS|KNOWN" | head -12
+  VERIF_REPO_ROOT="$W" VERIF_BUILD_DIR="$W/vbuild" VERIF_EVIDENCE_DIR="$W/evidence" python3 tools/check.py "$P" --tier quick 2>&1 | grep -E "^VIOLATION|signature:|detail:|quick:|HARNESS|KNOWN" | head -12
   echo "exit=${PIPESTATUS[0]}"
 done
